@@ -70,6 +70,16 @@ class Scenario:
         self.cfg = pgm.gen_cfg(rng, allow_bad_laser=False)
         self.cfg['shift_origin'] = rng.choice([(0.5, -0.25), (1.1, 2.3), (0.0, 0.7), (-3.0, 0.5)])
         self.cfg['output_digits'] = rng.choice([6, 4, 9])
+        for fn in ('POS.txt', 'fwarp.pkl'):
+            pathlib.Path(fn).unlink(missing_ok=True)
+        if rng.random() < 0.3:
+            # warp compensation on: a measured surface in the working directory (the compensation must not write into the
+            # caller's arrays either)
+            with open('POS.txt', 'w') as fh:
+                for gx in np.linspace(-1.0, 6.0, 6):
+                    for gy in np.linspace(-1.0, 3.0, 5):
+                        fh.write('%.6f %.6f %.6f\n' % (gx, gy, 0.01 * np.sin(gx) + 0.004 * gy * gy))
+            self.cfg['warp_flag'] = True
         self.wgs = []
         for i in range(rng.randint(2, 4)):
             param, calls = builders.gen_wg_calls(rng, max_ops=2)
